@@ -53,10 +53,16 @@ def check_transpose(ctx, before, arg, result, interval, label):
         ctx.violation("result-type", f"{label}: {type(arg).__name__} -> {type(result).__name__}", None)
         return
     exp = [P.transpose(s, a, o, interval.number, interval.quality, interval.direction) for s, a, o in pitches0]
-    in_domain = all(abs(e[1]) <= 2 for e in exp) and all(abs(a or 0) <= 2 for _, a, _ in pitches0)
+    # a note whose own transposition stays within double accidentals is judged whatever the other notes of the argument
+    # need (the library moves every note by itself); the others are don't-care
+    judged = [abs(e[1]) <= 2 and abs(a or 0) <= 2 for e, (_, a, _) in zip(exp, pitches0)]
+    in_domain = all(judged)
     if not in_domain:
         ctx.extra["out_of_domain"] += 1
-        return False
+        if not any(judged):
+            return False
+    for kind_ in getattr(ctx, "c16_unusual", ()):
+        ctx.extra["judged_with:" + kind_] += 1
     got_notes = pitched(result)
     got = [(n.step, n.alter or 0, n.octave) for n in got_notes]
     ctx.check(len(exp))
@@ -64,6 +70,9 @@ def check_transpose(ctx, before, arg, result, interval, label):
         ctx.violation("note-count-changed", f"{label}: {len(exp)} -> {len(got)} pitched notes", None)
         return True
     for i, (g, e, orig) in enumerate(zip(got, exp, pitches0)):
+        if not judged[i]:
+            ctx.ambiguous()
+            continue
         if g != e:
             n = got_notes[i]
             if g == (orig[0], orig[1] or 0, orig[2]):
@@ -147,10 +156,48 @@ def build_part(step, alter, octave):
     return p
 
 
+ENHARMONIC = {("G", 1): ("A", -1), ("A", -1): ("G", 1), ("C", 1): ("D", -1), ("D", -1): ("C", 1), ("F", 1): ("G", -1),
+              ("G", -1): ("F", 1), ("D", 1): ("E", -1), ("E", -1): ("D", 1), ("A", 1): ("B", -1), ("B", -1): ("A", 1),
+              ("E", 0): ("F", -1), ("F", 0): ("E", 1)}
+
+
+def unusual_ties(ctx, rng, sc):
+    """valid but uncommon ties: a tie into the enharmonic respelling of the same key (G sharp tied to A flat), and a grace
+    note tied to its main note.  Every note of a chain still has to move by the interval, each from its own spelling."""
+    import partitura.score as S
+    for part in sc.parts:
+        notes = pitched(part)
+        if rng.random() < 0.3:
+            conts = [n for n in notes if n.tie_prev is not None and (n.step, n.alter or 0) in ENHARMONIC]
+            if conts:
+                n = rng.choice(conts)
+                m = n
+                while m is not None:            # the rest of the chain is respelled with it (one respelling per chain)
+                    m.step, m.alter = ENHARMONIC[(n.step, n.alter or 0)] if m is n else (n.step, n.alter)
+                    m = m.tie_next
+                ctx.extra["enharmonic_ties"] += 1
+                ctx.c16_unusual = getattr(ctx, "c16_unusual", set()) | {"enharmonic-tie"}
+        if rng.random() < 0.3:
+            graces = [g for g in notes if isinstance(g, S.GraceNote) and g.tie_next is None and g.tie_prev is None]
+            rng.shuffle(graces)
+            for g in graces:
+                main = g.main_note
+                if main is None or not isinstance(main, S.Note) or main.tie_prev is not None or g.grace_next is not main:
+                    continue
+                g.step, g.alter, g.octave = main.step, main.alter, main.octave
+                g.tie_next = main
+                main.tie_prev = g
+                ctx.extra["grace_notes_tied_to_their_main_note"] += 1
+                ctx.c16_unusual = getattr(ctx, "c16_unusual", set()) | {"grace-tied-to-main"}
+                break
+
+
 def plan(tier, seed):
     items = [["table", s, a] for s in "CDEFGAB" for a in range(-2, 3)]
     items += [["chordroots"]]
     items += [["gen", i] for i in range(160 if tier == "quick" else 1600)]
+    # pieces of ordinary length (the copy the transposition works on goes once around the whole timeline)
+    items += [["long", i] for i in range(2 if tier == "quick" else 12)]
     return items
 
 
@@ -216,10 +263,40 @@ def run_item(ctx, item):
             if abs(e[1]) <= 2:
                 ctx.call(M.transpose_note, step, alter, iv)
                 ctx.case(["tn-adjusted", step, alter, number, q, num], True, cls="chord-root-adjusted-interval")
+    elif kind == "long":
+        import sys
+        rng = ctx.rng("long", item[1])
+        n_notes = rng.choice([900, 1500, 2500]) if item[1] < 2 else rng.choice([1000, 4000, 8000, 12000])
+        part = S.Part("P1", "long", quarter_duration=4)
+        part.add(S.TimeSignature(4, 4), 0)
+        prev = None
+        for i in range(n_notes):
+            step = rng.choice("CDEFGAB")
+            alter = rng.choice([None, 0, 1, -1])
+            if prev is not None and rng.random() < 0.1:
+                n = S.Note(prev.step, prev.octave, prev.alter, id=f"n{i}", voice=1, staff=1)
+                prev.tie_next = n
+                n.tie_prev = prev
+            else:
+                n = S.Note(step, rng.randint(2, 6), alter, id=f"n{i}", voice=1, staff=1)
+            part.add(n, 4 * i, 4 * i + 4)
+            prev = n
+        number, q = rng.choice([ic for ic in P.interval_classes() if ic[1] in ("P", "M", "m")])
+        iv = S.Interval(number, q, rng.choice(["up", "down"]))
+        arg = part if rng.random() < 0.5 else S.Score([part], id="long")
+        limit0 = sys.getrecursionlimit()
+        ctx.try_call(M.transpose, arg, iv)
+        ctx.check()
+        if sys.getrecursionlimit() != limit0:
+            ctx.violation("recursion-limit-left-changed", f"sys.getrecursionlimit() {limit0} before transpose, {sys.getrecursionlimit()} after", {"notes": n_notes})
+            sys.setrecursionlimit(limit0)
+        ctx.case(["long", item[1]], True, cls="long-piece", sample={"notes": n_notes, "interval": f"{q}{number}", "arg": type(arg).__name__})
     elif kind == "gen":
         from workloads import gen_score
         rng = ctx.rng("gen", item[1])
         sc = gen_score.make_score(rng, profile="pitchy")
+        ctx.c16_unusual = set()
+        unusual_ties(ctx, rng, sc)
         number, q = rng.choice(P.interval_classes()) if rng.random() < 0.5 else rng.choice(
             [ic for ic in P.interval_classes() if ic[1] in ("P", "M", "m")])          # (the common intervals stay inside the domain)
         direction = rng.choice(["up", "down"])
